@@ -493,6 +493,43 @@ ROUND3 = {
            'between events; a boot event fires once per process.',
 }
 
+# fourth round
+ROUND4 = {
+    'C01': ' Parts faults / retry: run-ID requests of the first to third job '
+           'of a batch fail once, upstream algorithms are requested before '
+           'the farm retries; held units are judged when the scheduler '
+           'released them.',
+    'C02': ' Part overtake: scripted skeleton in which a unit is queued '
+           'again by a newer upstream report while in flight and then '
+           'reports new values; algorithms may read back their own output.',
+    'C04': ' db.targets() may fail once while the farm handles a reply; '
+           'algorithms may read back their own output.',
+    'C05': ' Target names include one that is a substring of the all-targets '
+           'marker and one with a sub-target suffix.',
+    'C06': ' Value classes declare their versions like a real engine (one '
+           'class per identity, optional inheritance); payloads above 64 KiB.',
+    'C07': ' Crash steps include non-atomic copies; one round trip between '
+           'worker and database server may lose its request or its reply.',
+    'C08': ' Names are shared across catalogue levels.',
+    'C10': ' Events status (the farm answers a busy worker in every '
+           'life-cycle state) and reset (fe.api.cmd_reset).',
+    'C11': ' Part runid: the real shelve next() behind farm.rerunid with '
+           'stored run IDs of one to four digits.',
+    'C13': ' Requests arrive in two segments, clients die mid-request, the '
+           'waiters poll while the copy is under way.',
+    'C14': ' The database client (Connector.__do) receives its replies in '
+           'generated piece sizes.',
+    'C15': ' One catalogue write fails and is retried while versions are '
+           'recorded.',
+    'C16': ' The graph the scheduler built for an accepted package is '
+           'compared with the declarations.',
+    'C18': ' The same question is asked again after the statistics endpoint '
+           'and a scribbling caller have read the history.',
+    'C19': ' Requests are aimed through linked directories.',
+    'C20': ' The candidate moment sits among well-formed events of one '
+           'package; two classes of one name in two modules of a task.',
+}
+
 NOT_YET = 'check not built yet in this session (planned, see DESIGN.md section 4)'
 
 
@@ -517,7 +554,8 @@ def main():
                 'engine': eng,
                 'level_claimed': {
                     'category': cat,
-                    'text': text + EXTRA.get(pid, '') + ROUND3.get(pid, ''),
+                    'text': (text + EXTRA.get(pid, '') + ROUND3.get(pid, '')
+                             + ROUND4.get(pid, '')),
                     'design_ref': f'DESIGN.md section 4, {pid}',
                 },
                 'level_note': note,
